@@ -10,6 +10,10 @@ key, a signature over something else, swapped fields, the gex GROUP values - and
 abort.  The same alterations are applied to the reply of a *re-key* exchange (exchange index 1, 2)
 at the server's plaintext seam (kexfix.SeamPacketizer - later exchanges are encrypted, a wire tap
 cannot edit them): the client must abort there just the same.
+Re-encoding dimension: the octets of a field that H covers as an octet string (host key blob K_S,
+ECDH/X25519 Q_S) are replaced by another encoding of the *same* key / point (compressed SEC1 point,
+X25519 u-coordinate with the ignored high bit set, RSA e / n with a leading zero octet): K does not
+change, so only a client that hashes the received bytes aborts - it must.
 Request dimension: the group-exchange client asks for other legal (min, n, max) sizes than
 paramiko's own (and the old-style single-size request); H on both sides is compared with the
 reference, which hashes the numbers the client really sent.
@@ -20,13 +24,16 @@ from vmc import core, enum, fixtures as F, kexfix as K
 from vmc.refs import exhash as X
 import paramiko
 from paramiko.kex_gex import KexGex, KexGexSHA256
+from cryptography.hazmat.primitives import serialization
+from cryptography.hazmat.primitives.asymmetric import ec
 
 PID = "C06"
 META = {
     "level": "fault_enumeration",
     "technique": "exhaustive kex x host-key matrix and rekey sequences on two live transports with an "
                  "independent exchange-hash/signature reference; exhaustive single-fault enumeration "
-                 "(byte positions of every reply field, host-key/signature substitutions) by a MITM tap",
+                 "(byte positions of every reply field, host-key/signature substitutions, same-value "
+                 "re-encodings of the hashed string fields) by a MITM tap",
     "text": "Honest: 10 kex methods x 7 host-key signature algorithms = 70 handshakes, plus every rekey "
             "sequence of length <=2 (quick) / <=3 (thorough) over 4 kex methods with either side "
             "initiating. Faults on a 16-combination matrix (every kex with ed25519, every host-key "
@@ -34,7 +41,10 @@ META = {
             "and every 8th (fields > 160 bytes: every 32nd) byte of every reply field (quick) / at every byte position, plus XOR 0x80 on "
             "the cheap combinations (thorough); host key replaced by another key of the same / a "
             "different type; signature replaced by a genuine signature over another hash; fields "
-            "swapped; gex GROUP p/g bytes altered. Exchange-index dimension: a reduced edit list (length "
+            "swapped; gex GROUP p/g bytes altered; re-encoding dimension: Q_S / K_S replaced by a different "
+            "octet encoding of the same point / key (nistp Q_S and ECDSA host key: compressed SEC1 point; "
+            "curve25519 Q_S: high bit of the u-coordinate; RSA host key: e resp. n with a leading zero "
+            "octet) in the initial and the re-key exchanges. Exchange-index dimension: a reduced edit list (length "
             "prefix / first / middle / last byte of every field, all substitutions) is applied to the "
             "reply of re-key exchange 1 (all 16 combinations, client initiates) and 2 (cheap "
             "combinations, server initiates) at the server's plaintext seam; thorough: the full quick "
@@ -301,6 +311,7 @@ def fault_list(kex, alg, tier):
     for a, b in (("K_S", "f"), ("f", "sig"), ("K_S", "sig")):
         edits.append(("swapfields", a, b))
     edits.append(("drop-field", "sig"))
+    edits += reencode_edits(kex, alg)
     if X.family(kex) == "gex":
         offs = ([0, 1, 2, 3, 4, 5, 12, 60, 132, 196, 259, 260] if tier == "quick"
                 else list(range(4 + 257)))
@@ -311,6 +322,53 @@ def fault_list(kex, alg, tier):
         edits.append(("gset", "g", 1))
         edits.append(("gset", "g", 3))
     return edits
+
+
+def reencode_edits(kex, alg):
+    """Re-encoding dimension: the octets of a reply field that H covers as an octet *string* (K_S,
+    the ECDH Q_S - RFC 5656 s4 / RFC 8731 s3.1) are replaced by another encoding that every decoder
+    maps to the same key / point, so K (and anything computed from *parsed* values) is unchanged;
+    only a client that hashes the bytes it received notices.  (mpint fields f / p / g are hashed
+    by value: a non-minimal mpint is not an altered value and is not enumerated.)"""
+    edits = []
+    if kex.startswith("ecdh-sha2-nistp"):
+        edits.append(("reencode", "f", "compressed-point"))
+    elif kex.startswith("curve25519"):
+        edits.append(("reencode", "f", "u-coordinate-high-bit"))     # masked by X25519 (RFC 7748 s5)
+    hk = hk_family(alg)
+    if hk == "rsa":
+        edits.append(("reencode", "K_S", "mpint-leading-zero-octet:e"))
+        edits.append(("reencode", "K_S", "mpint-leading-zero-octet:n"))
+    elif hk == "ecdsa":
+        edits.append(("reencode", "K_S", "compressed-point"))
+    return edits
+
+
+NIST_CURVE = {"nistp256": ec.SECP256R1, "nistp384": ec.SECP384R1, "nistp521": ec.SECP521R1}
+
+
+def compress_point(curve_name, octets):
+    pt = ec.EllipticCurvePublicKey.from_encoded_point(NIST_CURVE[curve_name](), bytes(octets))
+    return pt.public_bytes(serialization.Encoding.X962, serialization.PublicFormat.CompressedPoint)
+
+
+def reencode(kex, alg, field, form, body):
+    """body = the field's content (without its length prefix); returns the re-encoded content."""
+    if field == "f":
+        if form == "compressed-point":
+            return compress_point(kex.rsplit("-", 1)[1], body)
+        return body[:-1] + bytes([body[-1] ^ 0x80])
+    r = X.Reader(body)
+    name = r.string()
+    if form == "compressed-point":
+        curve = r.string()
+        return X.sstr(name) + X.sstr(curve) + X.sstr(compress_point(curve.decode(), r.string()))
+    e, n = r.string(), r.string()
+    if form.endswith(":e"):
+        e = b"\x00" + e
+    else:
+        n = b"\x00" + n
+    return X.sstr(name) + X.sstr(e) + X.sstr(n)
 
 
 def rekey_fault_list(kex, alg):
@@ -325,6 +383,7 @@ def rekey_fault_list(kex, alg):
         edits.append(("swapkey", "same-type"))
     edits += [("swapkey", "other-type"), ("resign", "other-hash"), ("resign", "other-key"),
               ("swapfields", "f", "sig"), ("drop-field", "sig")]
+    edits += reencode_edits(kex, alg)
     if X.family(kex) == "gex":
         edits += [("gxor", "p", 132, 0x01), ("gset", "g", 3)]
     return edits
@@ -366,6 +425,8 @@ def apply_edit(kex, alg, edit, payload, info):
         parts[a], parts[b] = parts[b], parts[a]
     elif op == "drop-field":
         parts[edit[1]] = b""
+    elif op == "reencode":
+        parts[edit[1]] = X.sstr(reencode(kex, alg, edit[1], edit[2], parts[edit[1]][4:]))
     return payload[:1] + parts["K_S"] + parts["f"] + parts["sig"]
 
 
@@ -569,6 +630,10 @@ def _fault_key(kex, alg, edit, info):
         return "foreign-signature-accepted:%s" % edit[1]
     if op in ("swapfields", "drop-field"):
         return "restructured-reply-accepted:%s" % "-".join(edit)
+    if op == "reencode":
+        what = ("server-public-value:kex=%s" % X.family(kex) if edit[1] == "f"
+                else "host-key-blob:hostkey=%s" % hk_family(alg))
+        return "reencoded-reply-field-accepted:%s:%s" % (what, edit[2].split(":")[0])
     return "altered-gex-group-accepted:%s:%s" % (edit[1], info.get("part", "value"))
 
 
